@@ -7,7 +7,7 @@
    an assumption.  Executable definitions only. *)
 From Coq Require Import String Ascii.
 From Coq Require Import List Bool ZArith Arith.
-From Verif Require Import Base.GoInt Base.GoFloat Base.GoHeap Base.GoSort Base.RunLib Strategy.Model.
+From Verif Require Import Base.GoInt Base.GoFloat Base.GoHeap Base.GoSort Base.RunLib Cpumem.Pdqsort Strategy.Model.
 Import ListNotations.
 Local Open Scope Z_scope.
 
@@ -138,8 +138,64 @@ Definition deploy_fullW (s : strategy) (count limit : Z) (infos : list info) (to
   end.
 Definition deployW s count limit infos total : result := fst (deploy_fullW s count limit infos total).
 
-(* correspondence: the int64 twin against the implementation (same shape as Model.agree) *)
+(* ---- slices longer than 12: Go's sort.Slice is pdqsort (unstable).  Builder B's exact
+   port Cpumem/Pdqsort.sort_slice (cross-checked against the real sort.Slice) gives the
+   very permutation Go produces, so these cases are compared exactly too.  The theorems do
+   not depend on it: they hold for every sorted permutation, and [agreeW] still checks
+   that the observed order is one. ---- *)
+Definition pdqsort (less : info -> info -> bool) (l : list info) : list info := sort_slice info dinfo less l.
+
+Definition drainedP (infos : list info) (need total : Z) : result :=
+  if total <? need then Err EInsufficientResource else
+  drained_loopW (pdqsort drained_less infos) need [].
+Definition averageP (infos : list info) (need limit : Z) : result * list info :=
+  let limit' := each_limit infos limit in
+  if Z.of_nat (length infos) <? limit' then (Err EInsufficientResource, infos) else
+  let sorted := pdqsort each_less infos in
+  (each_fromW sorted need limit', sorted).
+Definition fillP (infos : list info) (need limit : Z) : result * list info :=
+  let limit' := each_limit infos limit in
+  if Z.of_nat (length infos) <? limit' then (Err EInsufficientResource, infos) else
+  let sorted := pdqsort fill_less infos in
+  (fill_loopW sorted need limit' [] 0, sorted).
+Definition deploy_fullP (s : strategy) (count limit : Z) (infos : list info) (total : Z)
+  : result * list info :=
+  match s with
+  | Drained => if count <=? 0 then (Err EInvalidCount, infos) else (drainedP infos count total, infos)
+  | Each => if count <=? 0 then (Err EInvalidCount, infos) else averageP infos count limit
+  | Fill => if count <=? 0 then (Err EInvalidCount, infos) else fillP infos count limit
+  | _ => deploy_fullW s count limit infos total
+  end.
+
+(* the caller's slice after the call must be a sorted permutation of the candidates
+   whenever the strategy sorted it (the hypothesis of the *_any_sorted_order theorems) *)
+Definition observed_order_ok (c : case) (after : list info) : bool :=
+  match c_strat c with
+  | Each | Fill =>
+      if strlist_eqb (names after) (names (c_infos c)) && negb (sortedb (sort_less (c_strat c)) (c_infos c))
+      then true      (* not sorted by the model => untouched, equality is checked by the caller *)
+      else
+        let obs := map (fun k => match find_info (c_infos c) k with Some x => x | None => dinfo end) (o_order c) in
+        Nat.eqb (length obs) (length (c_infos c)) && nodupb (o_order c) &&
+        forallb (fun k => existsb (String.eqb k) (names (c_infos c))) (o_order c) &&
+        sortedb (sort_less (c_strat c)) obs
+  | _ => true
+  end.
+
+(* correspondence: exact comparison of outcome, plan map and post-call slice order in all
+   cases; int64 twin with gosort (= Go's insertion sort) up to 12 elements, pdqsort beyond *)
 Definition agreeW (c : case) : bool :=
+  if negb (is_sorting (c_strat c)) || Nat.leb (length (c_infos c)) 12 then
+    let '(r, after) := deploy_fullW (c_strat c) (c_need c) (c_limit c) (c_infos c) (c_total c) in
+    res_eqb r (o_res c) && strlist_eqb (names after) (o_order c)
+  else
+    let '(r, after) := deploy_fullP (c_strat c) (c_need c) (c_limit c) (c_infos c) (c_total c) in
+    res_eqb r (o_res c) && strlist_eqb (names after) (o_order c) &&
+    (if nodupb (names (c_infos c)) then observed_order_ok c after else true).
+
+(* the former comparison modulo ties (outcome class + projected multiset), kept for
+   reference; justified by ProofsProj.v, no longer used by the check *)
+Definition agreeW_projected (c : case) : bool :=
   let '(r, after) := deploy_fullW (c_strat c) (c_need c) (c_limit c) (c_infos c) (c_total c) in
   if negb (is_sorting (c_strat c)) || Nat.leb (length (c_infos c)) 12 then
     res_eqb r (o_res c) && strlist_eqb (names after) (o_order c)
